@@ -318,7 +318,7 @@ register("C01", title="replica determinism", engine="irc-history-engine",
          technique="differential replay of generated histories on K instances and 2 processes",
          level_text="divergence between executions of the same history is observed directly; a dependence on map order over n>=2 elements shows with probability >= 1-2^-(K-1) per occurrence")
 register("C15", title="one well-formed line", engine="irc-history-engine",
-         rule_more="every other HTTP child runs the node in JSON store mode (-pre1.0_protobuf=false); user names of several hundred bytes (generator tail)",
+         rule_more="every other HTTP child runs the node in JSON store mode (-pre1.0_protobuf=false); user names of several hundred bytes (generator tail); a third of the hostile posts go through a trusted bridge (X-Bridge-Auth)",
          parts=[{"pkg": "./internal/ircserver", "test": "^TestVerifIRC$", "children": {"quick": 12, "thorough": 16}, "cases": {"quick": 250, "thorough": 5000}},
                 {"pkg": ".", "test": "^TestVerifC15HTTP$", "children": {"quick": 4, "thorough": 16}, "cases": {"quick": 2, "thorough": 12}},
                 dict(MAIN_ENGINE)],
@@ -409,7 +409,7 @@ register("C08", title="output stream next-message lookup", pkg="./internal/outpu
 
 
 register("C09", title="LevelDB store honours LogStore / StableStore", pkg="./internal/raftstore",
-         rule_more='logs of 150-450 entries with single long DeleteRange calls; 8 readers and 1 writer on one store under the race detector, every entry read is compared; opening a store is watched: not returning within 60 s is a violation',
+         rule_more='logs of 150-450 entries with single long DeleteRange calls; 8 readers and 1 writer on one store under the race detector, every entry read is compared; opening a store is watched: not returning within 60 s is a violation; stable-store numbers that are small, repeat and are zero a fifth of the time',
          parts=[{"test": "^TestVerifC09$", "children": {"quick": 16, "thorough": 16}, "cases": {"quick": 40, "thorough": 2500}},
                 {"test": "^TestVerifC09Concurrent$", "name": "raftstore_race", "race": True, "may_die": True, "children": {"quick": 2, "thorough": 8}, "cases": {"quick": 4, "thorough": 30}}],
          post_run=race_post_run("raftstore", "data race inside the log store while raft's readers and its writer use it concurrently (a reader can be handed another entry's fields)"),
@@ -444,7 +444,7 @@ def c19_post_run(vc, scr, spec, res, children):
 
 
 register("C19", title="time safeguard", pkg="./internal/timesafeguard", post_run=c19_post_run,
-         rule_more='peers in every raft state; join target other than the leader; cluster -safeguard: the time a real node reports lies inside the request window; the real binary restarted against fake TLS peers (skewed/slow/silent/in sync) must exit before any raft request reaches a peer',
+         rule_more='peers in every raft state; join target other than the leader; cluster -safeguard: the time a real node reports lies inside the request window; the real binary restarted against fake TLS peers (skewed/slow/silent/in sync) must exit before any raft request reaches a peer; on the restart path every other peer answers only the first request',
          parts=[{"test": "^TestVerifC19$", "children": {"quick": 8, "thorough": 16}, "cases": {"quick": 60000, "thorough": 1500000}},
                 {"test": "^TestVerifC19Real$", "children": {"quick": 4, "thorough": 16}, "cases": {"quick": 12, "thorough": 60}},
                 {"test": "^TestVerifC19Real$", "race": True, "may_die": True, "children": {"quick": 2, "thorough": 8}, "cases": {"quick": 14, "thorough": 60}},
@@ -480,7 +480,7 @@ register("C18", title="codecs round-trip",
 
 
 register("C02", title="compaction / snapshot / restore are invisible", pkg=".",
-         rule_more='JSON-first nodes upgraded at their first restart; compaction horizons at clock steps back; the raft log is ahead of the state machine at snapshots; single failing Write calls (half of them transient), Persist must not report success after one; histories ending without a configured expiration, compacted by the running node',
+         rule_more='JSON-first nodes upgraded at their first restart; compaction horizons at clock steps back; the raft log is ahead of the state machine at snapshots; single failing Write calls (half of them transient), Persist must not report success after one; histories ending without a configured expiration, compacted by the running node; histories ending in a message of death (tail kept, restore, folded, restore, restart)',
          parts=[{"test": "^TestVerifC02$", "children": {"quick": 16, "thorough": 16}, "cases": {"quick": 10, "thorough": 190}}],
          timeout={"quick": 400, "thorough": 2400}, level="exploration",
          rule="seeded histories (5-120 entries, index gaps as raft-internal entries leave them) applied through the real FSM with real LevelDB stores and a real "
@@ -514,7 +514,7 @@ register("C10", title="retried POST is not applied twice", pkg=".",
 
 
 register("C16", title="configuration updates", pkg=".",
-         rule_more='ban lists and every other field judged on the raw TOML document against the configuration in force; restart from a ban-less snapshot before the first GLINE (node death attributed); a third of the runs JSON-first; the expiration the restarted node compacts with',
+         rule_more='ban lists and every other field judged on the raw TOML document against the configuration in force; restart from a ban-less snapshot before the first GLINE (node death attributed); a third of the runs JSON-first; the expiration the restarted node compacts with; an unparsable Config entry applied through raft directly changes nothing; a 70 kB configuration whose last entries matter',
          on_fatal=node_on_fatal("C16", "the node died while applying an entry that changes the replicated configuration"),
          parts=[{"test": "^TestVerifC16$", "children": {"quick": 8, "thorough": 16}, "cases": {"quick": 6, "thorough": 400}}],
          timeout={"quick": 400, "thorough": 2400}, level="exploration",
@@ -526,7 +526,7 @@ register("C16", title="configuration updates", pkg=".",
          floor={"quick": 150, "thorough": 2000},
          technique="reference-model oracle over the HTTP API of an in-process node")
 register("C11", title="credentials", pkg=".",
-         rule_more="a session deleted before it registered; bodies naming another session / type / id / address; requests pending while the session with that (predictable) id is created; state replaced in place before the matrix (even seeds); the owner's long-poll stays open during the whole matrix; cluster -auth: every non-public path incl. /debug/* on three real binaries; no refusal may contain 32 bytes of any session secret",
+         rule_more="a session deleted before it registered; bodies naming another session / type / id / address; requests pending while the session with that (predictable) id is created; state replaced in place before the matrix (even seeds); the owner's long-poll stays open during the whole matrix; cluster -auth: every non-public path incl. /debug/* on three real binaries; no refusal may contain 32 bytes of any session secret; cluster -auth also asks for paths next to the public prefix (/robustirc/status, /robustirc/v2/..., /robustirc/) and reports a node that stops answering",
          parts=[{"test": "^TestVerifC11$", "children": {"quick": 2, "thorough": 16}, "cases": {"quick": 1, "thorough": 6}},
                 {"cluster": True, "cluster_args": ["-auth"], "children": {"quick": 1, "thorough": 2}, "cases": {"quick": 1, "thorough": 1},
                  "race": {"quick": False, "thorough": False}, "timeout": {"quick": 600, "thorough": 900}}],
@@ -562,7 +562,7 @@ def c07_on_fatal(vc, spec, res, c, recs):
 
 
 register("C07", title="message of death is contained", pkg=".", on_fatal=c07_on_fatal,
-         rule_more='a quarter of the plans in JSON store mode, three quarters with a non-zero message offset; the stored envelope (index, term, type) of every entry is compared with what was appended',
+         rule_more='a quarter of the plans in JSON store mode, three quarters with a non-zero message offset; the stored envelope (index, term, type) of every entry is compared with what was appended; plans in which raft dropped its log up to the snapshot (the crashing entry is the first the raft log holds); two snapshot generations after the restart',
          parts=[{"test": "^TestVerifC07$", "children": {"quick": 8, "thorough": 16}, "cases": {"quick": 12, "thorough": 120}},
                 {"cluster": True, "cluster_args": ["-mod"], "tiers": ["thorough"], "children": {"quick": 0, "thorough": 4}, "cases": {"quick": 1, "thorough": 2},
                  "race": {"quick": False, "thorough": False}, "timeout": {"quick": 900, "thorough": 2400}}],
@@ -707,7 +707,7 @@ def c20_overlay(vc, scr):
 
 
 register("C20", title="no data races", pkg=".", race=True,
-         rule_more='api.go compiled with yield points at the accessor entries, stalled 2 ms while the state is replaced; stale-revision config writers; sweep rounds with a 1 ms expiration; restore rounds with and without bans; first JOIN of churn sessions; the store closed (as FSM.Restore does) under six readers',
+         rule_more='api.go compiled with yield points at the accessor entries, stalled 2 ms while the state is replaced; stale-revision config writers; sweep rounds with a 1 ms expiration; restore rounds with and without bans; first JOIN of churn sessions; the store closed (as FSM.Restore does) under six readers; two writers (StoreLogs+DeleteRange, StoreLogProto) on that store',
          parts=[{"test": "^TestVerifC20$", "race": True, "may_die": True, "children": {"quick": 6, "thorough": 48}, "cases": {"quick": 2, "thorough": 4},
                  "overlay_hook": c20_overlay, "name": "main_yield"},
                 {"pkg": "./internal/outputstream", "name": "outputstream_real", "test": "^TestVerifC08Real$", "race": True,
@@ -730,7 +730,7 @@ register("C20", title="no data races", pkg=".", race=True,
 
 
 register("C04", title="exactly-once, in-order resume", pkg="./internal/api",
-         rule_more="output stream replaced under an open request; session ended (DELETE/KILL/QUIT) while the caught-up client's request is open; administrative /kill of several sessions with an observer resuming after every message; compaction (oldest first, up to everything) while a request waits, client up to date or ahead; a response that stays open without delivering after a replaced stream is a violation",
+         rule_more="output stream replaced under an open request; session ended (DELETE/KILL/QUIT) while the caught-up client's request is open; administrative /kill of several sessions with an observer resuming after every message; compaction (oldest first, up to everything) while a request waits, client up to date or ahead; a response that stays open without delivering after a replaced stream is a violation; three connections in a row for one session (only the newest may be served)",
          parts=[{"test": "^TestVerifC04$", "children": {"quick": 16, "thorough": 16}, "cases": {"quick": 8, "thorough": 190}},
                 {"pkg": ".", "test": "^TestVerifC04Admin$", "children": {"quick": 2, "thorough": 8}, "cases": {"quick": 3, "thorough": 30}}],
          timeout={"quick": 400, "thorough": 3000}, level="exploration",
@@ -765,4 +765,4 @@ register("C05", title="acknowledged messages survive crashes and fail-over", pkg
               "fetched stream. evaluations = (payload, observer, node) triples judged; distinct = fault-kind combinations / (kills, snapshots, open posts)",
          floor={"quick": 300, "thorough": 5000},
          technique="client-side history checking (unique payloads, open operations kept open) under SIGKILL/SIGSTOP/restart fault injection, single node and 3 real binaries")
-CHECKS["C13"]["rule_more"] = 'own ban table (masks as set, session references resolved at ban time), credentials and limits recorded when a Config entry is applied, own record of accepted captcha tokens'
+CHECKS["C13"]["rule_more"] = 'an invitation is used up by the JOIN into a +i/+x channel; own ban table (masks as set, session references resolved at ban time), credentials and limits recorded when a Config entry is applied, own record of accepted captcha tokens'
